@@ -128,6 +128,30 @@ def gen_graph(rng, small):
     return nw, gcap, lcap, steal, bal, bodies, ths
 
 
+def gen_straddle(rng):
+    """class C: 3-4 workers whose thread ids straddle a 128-id storage block of _local_task_queues (the driver parks
+    126 padding threads, env C07_PAD), stealing on, tasks that spawn several children into their local queue while
+    other workers are idle thieves: for_each then invokes the stealing callback once per block."""
+    nw = 3 + rng.below(2)
+    lcap = 1 + rng.below(3)
+    nroots = 2 + rng.below(3)
+    bodies, roots = [], []
+    for _ in range(nroots):
+        me = len(bodies)
+        roots.append(me)
+        bodies.append([])
+        for _ in range(1 + rng.below(lcap + 1)):
+            bodies[me].append(len(bodies))
+            bodies.append([])
+    ops = ["s%d" % r for r in roots]
+    for _ in range(rng.below(3)):
+        ops.insert(rng.below(len(ops) + 1), "W")
+    ths = split_threads(rng, ops, 1 + rng.below(2))
+    ths.append(["J", "X"] if rng.chance(2, 3) else ["X"])
+    gcap = bit_ceil(2 * len(bodies) + nw + 4)
+    return nw, gcap, lcap, 1, 0, bodies, ths
+
+
 def fmt_bodies(bodies):
     return ";".join(".".join(str(c) for c in b) if b else "-" for b in bodies)
 
@@ -194,7 +218,7 @@ def main(argv):
     progs = []   # (pid, kind, params-string, bodies, threads, small)
     if chk.replay:
         r = json.load(open(chk.replay))["replay"]
-        progs = [("r0", r["kind"], r["params"], r["bodies"], r["threads"], r.get("small", False))]
+        progs = [(("q0" if r.get("pad") else "r0"), r["kind"], r["params"], r["bodies"], r["threads"], r.get("small", False))]
         scheds = [(r["seed"], r["strategy"])]
     else:
         seen = set()
@@ -215,6 +239,11 @@ def main(argv):
                 progs.append(("p%d" % len(progs), "P", "%d %d %d %d %d" % (nw, gcap, lcap, steal, bal), fmt_bodies(bodies),
                               fmt_threads(ths), small))
                 got += 1
+        n_str = 18 if not thorough else 80
+        for i in range(n_str):
+            nw, gcap, lcap, steal, bal, bodies, ths = gen_straddle(rng)
+            progs.append(("q%d" % len(progs), "P", "%d %d %d %d %d" % (nw, gcap, lcap, steal, bal), fmt_bodies(bodies),
+                          fmt_threads(ths), False))
         for i in range(n_deg):
             kind = "ITF"[i % 3]
             _, _, _, _, _, bodies, ths = gen_graph(rng, False)
@@ -237,7 +266,13 @@ def main(argv):
             lines.append("%s %d %d %s %s %s %s" % (cid, seed, strat, kind, params, bodies, ths))
             meta[cid] = (pid, kind, params, bodies, ths, small, seed, strat)
     chk.log("%d programs, %d cases" % (len(progs), len(lines)))
-    impl_out = chk.run_cases(impl, lines, timeout=900) if impl else {}
+    pad_lines = [l for l in lines if l.startswith("q")]
+    lines_plain = [l for l in lines if not l.startswith("q")]
+    impl_out = chk.run_cases(impl, lines_plain, timeout=900) if impl else {}
+    if impl and pad_lines:
+        env = dict(os.environ)
+        env["C07_PAD"] = str(r.get("pad", 126)) if chk.replay else "126"
+        impl_out.update(chk.run_cases(impl, pad_lines, timeout=900, env=env))
     model_sets = {}
     states = trans = 0
     if model:
@@ -262,6 +297,8 @@ def main(argv):
         pid, kind, params, bodies, ths, small, seed, strat = meta[cid]
         rep = {"kind": kind, "params": params, "bodies": bodies, "threads": ths, "seed": seed, "strategy": strat,
                "small": small, "impl_line": l}
+        if pid.startswith("q"):
+            rep["pad"] = 126
         if l.startswith("DSCHED-STUCK"):
             k = "deadlock" if "deadlock" in l.split()[1] else "livelock"
             chk.violate("stuck-" + k, "stop()/join() never returns or a submission never completes (%s): %s" % (k, l[:400]), rep)
@@ -293,6 +330,8 @@ def main(argv):
     chk.cov["rule"] = ("case = (executor kind, configuration, task graph, external threads, schedule seed, strategy); pool "
                        "programs: class A = global capacity 1-2 (queue-full blocking of submitters), leaf children that fit "
                        "the local queue, stop()/destructor after the submitters; class B = random task graphs of depth <= 3, "
+                       "class C = 3-4 workers with thread ids straddling a 128-id storage block (126 parked padding threads), "
+                       "stealing on, several local children per task; "
                        "local capacity 0-3, stop() racing with submitters and running tasks, wakeup_one_worker; workers 1-3, "
                        "stealing on/off, balance interval unset/1-3us; strategies uniform random, round-robin with random "
                        "pre-emptions, PCT, about a third of the non-PCT schedules with spurious futex_wait returns; distinct non-trivial = distinct (program, observed run order) pairs; small "
